@@ -17,3 +17,8 @@ def run(ctx):
     # this property with every anchored line untouched
     from .restate import restate_f64_primitives
     restate_f64_primitives(ctx, [lambda: ctx.roles.decompose()], "the decomposition")
+    # through a sample the routine's inputs and outputs are the caller's: the matrix decomposed is the L matrix itself and determinant /
+    # factors / inverse reach the result and the metadata unscaled and unpermuted (restated from C08-b: a normalising or pivoting wrapper at
+    # the call site breaks what a user observes of this routine with the routine untouched)
+    from .restate import run_restated
+    run_restated(ctx, [("C08", {"C08-b": "sample hands L to the decomposition and reports its determinant / result unchanged"})])
